@@ -52,6 +52,23 @@ mod verif_find_priv {
         }
         iv
     }
+    // C01: msgPrivacyParameters of any length (the sender chooses it) never makes decrypt panic
+    #[test]
+    fn finder_privacy_salt_lengths() {
+        for alg in [1u8, 2] {
+            let mut key = PrivKey::new(alg).unwrap();
+            key.as_localized(&KUL).unwrap();
+            for n in 0..=17usize {
+                let salt = vec![0x5au8; n];
+                for data_len in [0usize, 8, 16, 24, 40] {
+                    let data = vec![0xc3u8; data_len];
+                    let usm = UsmParameters { engine_id: b"e", engine_boots: 1, engine_time: 2, user_name: b"u", auth_params: &[], privacy_params: &salt };
+                    let r = std::panic::catch_unwind(std::panic::AssertUnwindSafe(|| key.decrypt(&data, &usm).is_ok()));
+                    assert!(r.is_ok(), "alg {}: decrypt panics for a {}-octet salt and {} octets of msgData", alg, n, data_len);
+                }
+            }
+        }
+    }
     #[test]
     fn finder_privacy() {
         for alg in [1u8, 2] {
